@@ -139,28 +139,29 @@ Theorem eval_never_short :
 Proof. exact eval_no_short. Qed.
 Print Assumptions eval_never_short.
 
-(* SimplifyUnusedExpr (with optional-chain insertion switched off): in every
+(* SimplifyUnusedExpr (with or without optional-chain insertion): in every
    world_ok world, whenever the unused expression e evaluates, its simplification
    has the same trace, the same kind of completion and the same thrown value.
    Covers templates, array/object literals with spreads, pure calls and new,
    conditionals, logical operators (left operand through SimplifyBooleanExpr),
-   equality operators, typeof, and unused string-addition chains.
+   equality operators, typeof, unused string-addition chains, and the rewrite
+   a != null && a.b.c => a?.b.c (TryToInsertOptionalChain after fix 01a3711:
+   finding J).
    PARTIAL: [no_bad] excludes the shape on which the statement is false of the
    real code (refuted below): an object literal without spread that has a
    computed key (finding A).  For a call marked pure inside an optional chain
    (finding K, repaired by a3926ba: unwrapped only when all its arguments can be
    removed) [no_bad] asks that the arguments of the unwrapped call evaluate in
    the model: the call evaluates without evaluating them when the chain
-   short-circuits, and the model is partial.  The statement with optional-chain
-   insertion (noOptChain = false; finding J, repaired by 01a3711) is not proved.
+   short-circuits, and the model is partial.
    The model is total (no fuel hypothesis: see simplify_unused_total).
    Full statement: forall e, flags_ok W e -> ... same_effects (eval e) (eval_unused (simplify_unused ub noOC e)) *)
 Theorem simplify_unused_sound_partial :
   forall (W : world), world_ok W ->
-    forall e tr res,
+    forall noOptChain e tr res,
     flags_ok W e -> no_bad W e ->
     eval W tr e = Some res ->
-    same_effects (Some res) (eval_unused W tr (simplify_unused (w_unbound W) true e)).
+    same_effects (Some res) (eval_unused W tr (simplify_unused (w_unbound W) noOptChain e)).
 Proof. exact simplify_unused_sound_nofuel_all. Qed.
 Print Assumptions simplify_unused_sound_partial.
 
@@ -242,19 +243,18 @@ Print Assumptions values_look_the_same_typeof_mark_fixed.
    by "test" into e', then e' completes like test when test throws, evaluates to
    undefined (without evaluating any link) when test is null or undefined, and
    otherwise evaluates exactly like e.
-   PARTIAL: [vls_ok] (canonical number literals); [spine_ok]: the optional-chain
-   flags along the chain are the three of the AST (the model carries them as
-   integers).
+   PARTIAL: [vls_ok] (canonical number literals; not needed when test is an
+   identifier: tioc_sound_id).
    Full statement: the same without vls_ok. *)
 Theorem try_insert_optional_chain_sound_partial :
   forall (W : world) test e e',
-    vls_ok test -> vls_ok e -> spine_ok e -> try_insert_optional_chain test e = Some e' ->
+    vls_ok test -> vls_ok e -> try_insert_optional_chain test e = Some e' ->
     forall tr,
       (forall tr1 z, eval W tr test = Some (tr1, Throw z) -> eval W tr e' = Some (tr1, Throw z)) /\
       (forall a, eval W tr test = Some (tr, Val a) ->
          (nullish a = true -> eval W tr e' = Some (tr, Val VUndef)) /\
          (nullish a = false -> forall r, eval W tr e = Some r -> eval W tr e' = Some r)).
-Proof. intros W test e e' H1 H2 H3 H4. exact (proj2 (proj2 (tioc_sound W test e e' H1 H2 H3 H4))). Qed.
+Proof. intros W test e e' H1 H2 H4. exact (proj2 (proj2 (tioc_sound W test e e' H1 H2 H4))). Qed.
 Print Assumptions try_insert_optional_chain_sound_partial.
 
 (* MangleIfExpr: in every world_ok world, whenever the conditional test ? yes : no
@@ -268,15 +268,14 @@ Print Assumptions try_insert_optional_chain_sound_partial.
    a?.b.c (optional-chain insertion, after fix 01a3711).
    The model is total (no fuel hypothesis: see mangle_if_total).
    PARTIAL: [vls_ok] as for values_look_the_same_sound_partial; [no_hole_args]: call
-   arguments are not array holes; [spine_ok]: optional-chain flags are the three of
-   the AST.
-   Full statement: the same without these three well-formedness hypotheses. *)
+   arguments are not array holes.
+   Full statement: the same without these two well-formedness hypotheses. *)
 Theorem mangle_if_equiv_partial :
   forall (W : world), world_ok W ->
   forall noNullish noOptChain test yes no,
     flags_ok W test -> flags_ok W yes -> flags_ok W no ->
     vls_ok test -> vls_ok yes -> vls_ok no ->
-    no_hole_args yes -> no_hole_args no -> spine_ok yes -> spine_ok no ->
+    no_hole_args yes -> no_hole_args no ->
     exists e', mangle_if (w_unbound W) noNullish noOptChain test yes no = Some e' /\
       forall tr res, eval W tr (EIf test yes no) = Some res -> eval W tr e' = Some res.
 Proof. exact mangle_if_equiv_all. Qed.
